@@ -193,6 +193,34 @@ func (v *c08env) method(name string) *c08fn {
 		v.c.Errorf("anchor: role %s of CircuitBreaker not resolved", name)
 		return nil
 	}
+	return v.methodFor(fo, name)
+}
+
+// subject finds the function that does the work of the exported method shell: shell itself if
+// pred holds for its body, else the first same-package function it reaches (calls inside
+// function literals — withLock(func(){..}) — included) for which pred holds.
+func (v *c08env) subject(shell string, pred func(g *flow.Func) bool) *types.Func {
+	fo := v.meth[shell]
+	if fo == nil {
+		return nil
+	}
+	fd := declOf(v.pkg, fo)
+	if fd == nil {
+		return fo
+	}
+	for _, g := range reach(flow.NewFunc(v.pkg, fd), 3) {
+		gd, ok := g.Node.(*ast.FuncDecl)
+		if !ok || !pred(g) {
+			continue
+		}
+		if o, ok := v.pkg.TypesInfo.Defs[gd.Name].(*types.Func); ok && v.isCBMethod(o) {
+			return o
+		}
+	}
+	return fo
+}
+
+func (v *c08env) methodFor(fo *types.Func, name string) *c08fn {
 	f := fn(v.c, c08cb, "CircuitBreaker", fo.Name())
 	if f == nil {
 		return nil
@@ -656,12 +684,44 @@ func (vd *c08verdicts) fail(name, why string, st *flow.State) {
 
 func c08Admission(v *c08env) {
 	c := v.c
-	m := v.method("AcquirePermission")
+	// the function that decides: the exported method itself, or the helper it hands the work to
+	// (acquire() called under withLock): the one whose own body tests the state field
+	stateF0 := v.fld["state"]
+	subj := v.subject("AcquirePermission", func(g *flow.Func) bool {
+		found := false
+		ast.Inspect(g.Body, func(n ast.Node) bool {
+			switch x := n.(type) {
+			case *ast.BinaryExpr:
+				if x.Op == token.EQL || x.Op == token.NEQ {
+					for _, side := range []ast.Expr{x.X, x.Y} {
+						if fv, _ := c08sel(g, side); fv == stateF0 {
+							found = true
+						}
+					}
+				}
+			case *ast.SwitchStmt:
+				if x.Tag != nil {
+					if fv, _ := c08sel(g, x.Tag); fv == stateF0 {
+						found = true
+					}
+				}
+			}
+			return !found
+		})
+		return found
+	})
+	if subj == nil {
+		return
+	}
+	m := v.methodFor(subj, "AcquirePermission")
 	if m == nil {
 		return
 	}
 	f := m.f
 	body := m.fd.Body
+	if subj != v.meth["AcquirePermission"] {
+		c08Shell(v, "R-C08-2", v.meth["AcquirePermission"], subj, []string{"bool", "uint32"})
+	}
 	ctrF, ttF, idF := v.fld["numberOfCallsInHalfOpen"], v.fld["transitTime"], v.fld["stateID"]
 	ctrCmps := m.findCmps(false,
 		func(e ast.Expr) bool { return m.denotes(e, ctrF) },
@@ -723,8 +783,9 @@ func c08Admission(v *c08env) {
 	})
 
 	res := analyze(c, f, flow.Config{
-		Pure:   m.pure,
-		Inline: m.inline,
+		Pure:     m.pure,
+		Inline:   m.inline,
+		OnInline: c08constParams(f),
 		AfterAssume: func(st *flow.State, cond ast.Expr, outcome bool) {
 			m.mirror(st)
 			if maxIsSetFacts(st) {
@@ -792,13 +853,67 @@ func c08Admission(v *c08env) {
 		return
 	}
 
-	permOf := func(ex *flow.Exit) flow.Val {
-		var e ast.Expr
-		if ex.Return != nil && len(ex.Return.Results) >= 1 {
-			e = ast.Unparen(ex.Return.Results[0])
-		} else if f.Type.Results != nil && len(f.Type.Results.List) > 0 && len(f.Type.Results.List[0].Names) > 0 {
-			e = f.Type.Results.List[0].Names[0]
+	// the returned (permitted, stateID): two results, named results, or the fields of a struct
+	// literal (permission{granted: .., stateID: ..}), possibly built by a helper the engine
+	// interpreted in place (ex.Ret() is then the helper's return statement)
+	resultExprs := func(ex *flow.Exit) (perm, id ast.Expr) {
+		var rs []ast.Expr
+		if r := ex.Ret(); r != nil {
+			rs = r.Results
 		}
+		if len(rs) == 0 && f.Type.Results != nil {
+			for _, fl := range f.Type.Results.List {
+				for _, n := range fl.Names {
+					rs = append(rs, n)
+				}
+			}
+		}
+		if len(rs) == 1 {
+			e := ast.Unparen(rs[0])
+			if u, ok := e.(*ast.UnaryExpr); ok && u.Op == token.AND {
+				e = ast.Unparen(u.X)
+			}
+			if cl, ok := e.(*ast.CompositeLit); ok {
+				if stT, ok := f.Info.TypeOf(cl).Underlying().(*types.Struct); ok {
+					for i, el := range cl.Elts {
+						var ft types.Type
+						val := el
+						if kv, ok := el.(*ast.KeyValueExpr); ok {
+							val = kv.Value
+							if kid, ok := kv.Key.(*ast.Ident); ok {
+								if fo, ok := f.Info.Uses[kid].(*types.Var); ok {
+									ft = fo.Type()
+								}
+							}
+						} else if i < stT.NumFields() {
+							ft = stT.Field(i).Type()
+						}
+						if ft == nil {
+							continue
+						}
+						if b, ok := ft.Underlying().(*types.Basic); ok {
+							switch b.Kind() {
+							case types.Bool:
+								perm = ast.Unparen(val)
+							case types.Uint32:
+								id = ast.Unparen(val)
+							}
+						}
+					}
+				}
+			}
+			return
+		}
+		if len(rs) >= 1 {
+			perm = ast.Unparen(rs[0])
+		}
+		if len(rs) >= 2 {
+			id = ast.Unparen(rs[1])
+		}
+		return
+	}
+	permOf := func(ex *flow.Exit) flow.Val {
+		e, _ := resultExprs(ex)
 		if e == nil {
 			return flow.Unknown
 		}
@@ -809,24 +924,22 @@ func c08Admission(v *c08env) {
 			return flow.False
 		}
 		if id, ok := e.(*ast.Ident); ok {
-			return ex.State.Get(f.VarKey(id))
+			if x := ex.State.Get(f.VarKey(id)); x != flow.Unknown {
+				return x
+			}
+			switch {
+			case ex.State.Is("ev:pc:"+f.Render(id)+"==true", flow.True):
+				return flow.True
+			case ex.State.Is("ev:pc:"+f.Render(id)+"==false", flow.True):
+				return flow.False
+			}
+			return flow.Unknown
 		}
 		return c08truth(f, ex.State, e)
 	}
 	idOf := func(ex *flow.Exit) ast.Expr {
-		if ex.Return != nil && len(ex.Return.Results) >= 2 {
-			return ast.Unparen(ex.Return.Results[1])
-		}
-		if f.Type.Results != nil {
-			var names []*ast.Ident
-			for _, fl := range f.Type.Results.List {
-				names = append(names, fl.Names...)
-			}
-			if len(names) >= 2 {
-				return names[1]
-			}
-		}
-		return nil
+		_, e := resultExprs(ex)
+		return e
 	}
 
 	rows := c08newVerdicts(c08roles()...)
@@ -1041,16 +1154,40 @@ func c08Admission(v *c08env) {
 
 func c08Record(v *c08env) {
 	c := v.c
-	m := v.method("RecordResult")
+	// the function that records: the exported method itself, or the helper it hands the work to
+	// (record() called under withLock): the one whose own body pushes into the window
+	winT := v.winT
+	subj := v.subject("RecordResult", func(g *flow.Func) bool {
+		for _, call := range calls(g.Body, true) {
+			if fo, ok := g.Callee(call).(*types.Func); ok && fo.Name() == "Push" {
+				if recv := fo.Type().(*types.Signature).Recv(); recv != nil &&
+					(types.Identical(recv.Type(), winT) || types.Identical(recv.Type().Underlying(), winT.Underlying())) {
+					return true
+				}
+			}
+		}
+		return false
+	})
+	if subj == nil {
+		return
+	}
+	shell := v.meth["RecordResult"]
+	m := v.methodFor(subj, "RecordResult")
 	if m == nil {
 		return
 	}
 	f := m.f
 	idF := v.fld["stateID"]
+	// parameters of the recording function and of its helpers (isStale(stateID))
 	params := map[types.Object]bool{}
-	for _, fl := range m.fd.Type.Params.List {
-		for _, n := range fl.Names {
-			params[f.Info.Defs[n]] = true
+	for _, g := range m.bodies {
+		if g.Type == nil || g.Type.Params == nil {
+			continue
+		}
+		for _, fl := range g.Type.Params.List {
+			for _, n := range fl.Names {
+				params[f.Info.Defs[n]] = true
+			}
 		}
 	}
 	isParam := func(e ast.Expr) bool {
@@ -1367,30 +1504,169 @@ func c08Record(v *c08env) {
 		guard("R-C08-3", "transitTo("+m.target(call)+") only for current results", call)
 	}
 
-	// R-C08-4 classification of the pushed result
-	var errParam, durParam *ast.Ident
-	for _, fl := range m.fd.Type.Params.List {
-		for _, n := range fl.Names {
-			o := f.Info.Defs[n]
-			if o == nil {
-				continue
+	// R-C08-4 classification of the pushed result. Where: at the Push if the value is computed in
+	// the recording function; at the call of the recording function in the exported shell if the
+	// value is one of its parameters (RecordResult classifies, then record(stateID, result)).
+	type classSite struct {
+		states []*flow.State
+		arg    ast.Expr
+		at     ast.Node
+	}
+	cm := m // the function whose variables the classification talks about
+	var sites []classSite
+	classUndecided := ""
+	for _, call := range pushCalls {
+		if len(call.Args) == 1 {
+			sites = append(sites, classSite{res.At[call], ast.Unparen(call.Args[0]), call})
+		}
+	}
+	if subj != shell {
+		// which parameter of the recording function is pushed?
+		pidx := -1
+		if len(sites) == 1 {
+			if id, ok := sites[0].arg.(*ast.Ident); ok {
+				idx := 0
+				for _, fl := range m.fd.Type.Params.List {
+					for _, n := range fl.Names {
+						if f.Info.Defs[n] == c08obj(f, id) {
+							pidx = idx
+						}
+						idx++
+					}
+				}
 			}
-			if b, ok := o.Type().Underlying().(*types.Basic); ok && b.Kind() == types.Bool && errParam == nil {
-				errParam = n
+		}
+		if pidx >= 0 {
+			sm := v.methodFor(shell, "RecordResult")
+			if sm == nil {
+				return
 			}
-			if o.Type().String() == "time.Duration" && durParam == nil {
-				durParam = n
+			sres := analyze(c, sm.f, flow.Config{Pure: sm.pure, Inline: sm.inline, OnInline: c08constParams(sm.f)})
+			if sres == nil {
+				return
+			}
+			cm = sm
+			sites = nil
+			pm := parentMap(sm.fd.Body)
+			for _, call := range calls(sm.fd.Body, true) {
+				if sm.f.Callee(call) != types.Object(subj) || pidx >= len(call.Args) {
+					continue
+				}
+				// the states in which the closure that makes the call is handed to the lock
+				// wrapper: the outermost call expression of the shell's own body around it
+				var site ast.Node = call
+				for p := pm[call]; p != nil; p = pm[p] {
+					if ce, ok := p.(*ast.CallExpr); ok {
+						site = ce
+					}
+				}
+				sites = append(sites, classSite{sres.At[site], ast.Unparen(call.Args[pidx]), call})
+			}
+			if len(sites) == 0 {
+				classUndecided = "the call of " + subj.Name() + " in " + shell.Name() + " was not found"
+			}
+			// the stateID handed on must be the caller's
+			sidx := -1
+			idx := 0
+			// a helper's parameter that receives a parameter of the recording function
+			// (isStale(stateID)) stands for it
+			rootOf := map[types.Object]types.Object{}
+			for _, call := range calls(m.fd.Body, true) {
+				fo, ok := f.Callee(call).(*types.Func)
+				if !ok {
+					continue
+				}
+				gd := declOf(v.pkg, fo)
+				if gd == nil || gd.Type.Params == nil {
+					continue
+				}
+				j := 0
+				for _, fl := range gd.Type.Params.List {
+					for _, n := range fl.Names {
+						if j < len(call.Args) {
+							if aid, ok := ast.Unparen(call.Args[j]).(*ast.Ident); ok {
+								rootOf[f.Info.Defs[n]] = c08obj(f, aid)
+							}
+						}
+						j++
+					}
+				}
+			}
+			for _, fl := range m.fd.Type.Params.List {
+				for _, n := range fl.Names {
+					for _, cmp := range staleCmps {
+						a := cmp.node.X
+						if !cmp.aIsX {
+							a = cmp.node.Y
+						}
+						if id, ok := ast.Unparen(a).(*ast.Ident); ok {
+							o := c08obj(f, id)
+							if r, ok := rootOf[o]; ok {
+								o = r
+							}
+							if o == f.Info.Defs[n] {
+								sidx = idx
+							}
+						}
+					}
+					idx++
+				}
+			}
+			shellParams := map[types.Object]bool{}
+			for _, fl := range sm.fd.Type.Params.List {
+				for _, n := range fl.Names {
+					shellParams[f.Info.Defs[n]] = true
+				}
+			}
+			for _, site := range sites {
+				call := site.at.(*ast.CallExpr)
+				if sidx < 0 || sidx >= len(call.Args) {
+					continue
+				}
+				arg := ast.Unparen(call.Args[sidx])
+				id, isID := arg.(*ast.Ident)
+				switch {
+				case isID && shellParams[c08obj(f, id)]:
+					c.Discharge("R-C08-3", sm.cons+"|hands the caller's stateID on to "+subj.Name(), pos(c, call), "the stateID parameter is passed unchanged")
+				case c08constOf(f, arg) != nil:
+					c.Violate("R-C08-3", sm.cons+"|hands the caller's stateID on to "+subj.Name(), pos(c, call), "a constant is passed instead of the caller's stateID: results are compared with the wrong state id (all dropped as stale, or stale ones accepted)")
+				default:
+					c.Undecide("R-C08-3", sm.cons+"|hands the caller's stateID on to "+subj.Name(), pos(c, call), "the stateID argument is not the parameter of "+shell.Name())
+				}
 			}
 		}
 	}
-	if errParam == nil || durParam == nil {
-		c.Errorf("R-C08-4: anchor: RecordResult has no (bool, time.Duration) parameters")
-	} else if len(pushCalls) > 0 {
+	var errParam, durParam *ast.Ident
+	for _, g := range cm.bodies {
+		if g.Type == nil || g.Type.Params == nil || (errParam != nil && durParam != nil) {
+			continue
+		}
+		for _, fl := range g.Type.Params.List {
+			for _, n := range fl.Names {
+				o := f.Info.Defs[n]
+				if o == nil {
+					continue
+				}
+				if b, ok := o.Type().Underlying().(*types.Basic); ok && b.Kind() == types.Bool && errParam == nil {
+					errParam = n
+				}
+				if o.Type().String() == "time.Duration" && durParam == nil {
+					durParam = n
+				}
+			}
+		}
+	}
+	switch {
+	case classUndecided != "":
+		c.Undecide("R-C08-4", m.cons+"|result classification", pos(c, m.fd.Name), classUndecided)
+	case errParam == nil || durParam == nil:
+		c.Undecide("R-C08-4", m.cons+"|result classification", pos(c, m.fd.Name), "no (bool, time.Duration) parameters from which the pushed result is computed were found")
+	case len(sites) > 0:
 		// the flag and the duration may be handed on to a helper: its parameters of the same
 		// types play the same roles (the engine aliases them to the caller's variables)
-		durObjs := map[types.Object]bool{f.Info.Defs[durParam]: true}
-		errIDs := []*ast.Ident{errParam}
-		for _, g := range m.bodies[1:] {
+		durObjs := map[types.Object]bool{}
+		var errIDs []*ast.Ident
+		for _, g := range cm.bodies {
 			if g.Type == nil || g.Type.Params == nil {
 				continue
 			}
@@ -1417,16 +1693,13 @@ func c08Record(v *c08env) {
 			}
 			return flow.Unknown
 		}
-		slowDur := m.findCmps(false,
+		slowDur := cm.findCmps(false,
 			func(e ast.Expr) bool { id, ok := ast.Unparen(e).(*ast.Ident); return ok && durObjs[c08obj(f, id)] },
-			func(e ast.Expr) bool { return m.mentionsPol(e, "SlowCallDurationThreshold") })
+			func(e ast.Expr) bool { return cm.mentionsPol(e, "SlowCallDurationThreshold") })
 		cl := c08newVerdicts("c")
-		for _, call := range pushCalls {
-			if len(call.Args) != 1 {
-				continue
-			}
-			arg := ast.Unparen(call.Args[0])
-			for _, st := range res.At[call] {
+		for _, site := range sites {
+			arg := site.arg
+			for _, st := range site.states {
 				cl.seen("c")
 				got := ""
 				for name, val := range v.resKind {
@@ -1463,8 +1736,10 @@ func c08Record(v *c08env) {
 			}
 		}
 		if cl.n["c"] > 0 {
-			c.Check(cl.bad["c"] == "", "R-C08-4", m.cons+"|result classification", pos(c, pushCalls[0]),
-				sprintf("%d states at Push: failure iff hasErr, else slow iff duration reached the threshold, else success", cl.n["c"]), cl.bad["c"], cl.w["c"]...)
+			c.Check(cl.bad["c"] == "", "R-C08-4", m.cons+"|result classification", pos(c, sites[0].at),
+				sprintf("%d states where the result is handed to the window: failure iff hasErr, else slow iff duration reached the threshold, else success", cl.n["c"]), cl.bad["c"], cl.w["c"]...)
+		} else {
+			c.Undecide("R-C08-4", m.cons+"|result classification", pos(c, sites[0].at), "the place where the classified result is handed on is not reached by the analysis")
 		}
 	}
 
@@ -1869,4 +2144,89 @@ func c08Transit(v *c08env) {
 	sort.Strings(stray)
 	c.Check(len(stray) == 0, "R-C08-5", c08cb+".(CircuitBreaker)|state/stateID/transitTime written only by transitTo", at,
 		"no other function of the package assigns them", "the breaker state is written outside transitTo, bypassing the stateID/transitTime/window pairing: "+strings.Join(stray, "; "))
+}
+
+// c08Shell: the exported method hands its work to subj (e.g. under a withLock helper); it must
+// return what subj returned — results whose types are want, each taken from the variable(s)
+// assigned from the call of subj (p.granted, p.stateID / ok, id). A shape the check cannot
+// follow is undecided, never violated.
+func c08Shell(v *c08env, rule string, shell, subj *types.Func, want []string) {
+	c := v.c
+	fd := declOf(v.pkg, shell)
+	if fd == nil {
+		return
+	}
+	f := flow.NewFunc(v.pkg, fd)
+	cons := fname(c08cb, "CircuitBreaker", shell.Name()) + "|hands on to " + subj.Name() + " and returns its answer"
+	at := pos(c, fd.Name)
+	carriers := map[types.Object]bool{}
+	nCalls := 0
+	ast.Inspect(fd.Body, func(n ast.Node) bool {
+		switch x := n.(type) {
+		case *ast.AssignStmt:
+			for _, r := range x.Rhs {
+				if call, ok := ast.Unparen(r).(*ast.CallExpr); ok && f.Callee(call) == types.Object(subj) {
+					nCalls++
+					for _, l := range x.Lhs {
+						if id, ok := ast.Unparen(l).(*ast.Ident); ok && id.Name != "_" {
+							carriers[c08obj(f, id)] = true
+						}
+					}
+				}
+			}
+		case *ast.ReturnStmt:
+			for _, r := range x.Results {
+				if call, ok := ast.Unparen(r).(*ast.CallExpr); ok && f.Callee(call) == types.Object(subj) {
+					nCalls += 100 // returned directly
+				}
+			}
+		}
+		return true
+	})
+	if nCalls >= 100 {
+		c.Discharge(rule, cons, at, "the result of "+subj.Name()+" is returned directly")
+		return
+	}
+	if nCalls != 1 || len(carriers) == 0 {
+		c.Undecide(rule, cons, at, sprintf("%s calls %s %d time(s) in a form the check cannot follow", shell.Name(), subj.Name(), nCalls))
+		return
+	}
+	ok, why := true, ""
+	nRet := 0
+	ast.Inspect(fd.Body, func(n ast.Node) bool {
+		if _, isLit := n.(*ast.FuncLit); isLit {
+			return false
+		}
+		rs, isRet := n.(*ast.ReturnStmt)
+		if !isRet {
+			return true
+		}
+		nRet++
+		if len(rs.Results) != len(want) {
+			ok, why = false, "a return statement does not list the results explicitly"
+			return true
+		}
+		for i, r := range rs.Results {
+			from := false
+			ast.Inspect(r, func(y ast.Node) bool {
+				if id, isID := y.(*ast.Ident); isID && carriers[c08obj(f, id)] {
+					from = true
+				}
+				return true
+			})
+			t := f.Info.TypeOf(r)
+			if !from || t == nil || t.Underlying().String() != want[i] {
+				ok, why = false, sprintf("result #%d is not the %s answered by %s", i+1, want[i], subj.Name())
+			}
+		}
+		return true
+	})
+	if nRet == 0 {
+		ok, why = false, "no return statement"
+	}
+	if !ok {
+		c.Undecide(rule, cons, at, why)
+		return
+	}
+	c.Discharge(rule, cons, at, sprintf("%d return statement(s) hand back the fields of the value answered by %s", nRet, subj.Name()))
 }
